@@ -2,6 +2,7 @@ import OrsoVerif.Model.PyVal
 import OrsoVerif.Model.Display
 import OrsoVerif.Generated.Display
 import OrsoVerif.Model.DisplayFmt
+import OrsoVerif.Model.DisplayTd
 /-! Driver glue for C18: decode frames / parameters, run the display model, encode the lines. -/
 namespace Drv.C18
 open Display
@@ -43,7 +44,25 @@ def decodeCell : PyVal → Option Cell
     let xs ← strList xs
     let n ← nat? n
     pure (.list xs n)
+  | .list [.str "td64", .str unit, .int step, .int raw, .list ps, .int n] => do
+    -- a numpy.timedelta64: the extracted branch of numpy_type_mapper decides what interval it becomes
+    let ps ← strList ps
+    let n ← nat? n
+    DisplayTd.tdCell unit step raw ps n
   | .list [.str "other", .str s] => some (.other (s2l s))
+  | _ => none
+
+/-- The exception the extracted timedelta branch raises on a cell, if any. -/
+def tdError : PyVal → Option String
+  | .list [.str "td64", .str unit, .int step, .int raw, _, _] =>
+    match DisplayTd.mapTd unit step raw with
+    | .keyError => some "KeyError"
+    | .zeroDivision => some "ZeroDivisionError"
+    | _ => none
+  | _ => none
+
+def rowTdError : PyVal → Option String
+  | .list cs => cs.findSome? tdError
   | _ => none
 
 def decodeRow : PyVal → Option (List Cell)
@@ -117,6 +136,7 @@ def renderWith (cw : Char → Nat) (limit : Int) (tt lazy showTypes : Bool) (max
     let dw ← nat? dw
     let names ← strList names
     let types ← strList types
+    if let some e := rows.findSome? rowTdError then return [.str "err", .str e]
     let rows ← rows.mapM decodeRow
     let p : Params := { limit, tt, lazy, showTypes, maxCol, displayWidth := dw, strict }
     let f : Frame := { names, types, rows }
@@ -161,6 +181,14 @@ def handle (op : String) (args : List PyVal) : Option (List PyVal) :=
     pure [.list ((markdownLines srcArith limit maxCol { names, rows }).map fun l => .str (l2s l.text))]
   | "interval", [.int months, .int days, .int secs] =>
     pure [.list ((intervalParts srcArith months days secs).map fun p => .str (l2s p))]
+  | "td64", [.str unit, .int step, .int raw] =>
+    -- the timedelta branch of numpy_type_mapper as extracted: month count, or numerator and denominator of the quotient
+    match DisplayTd.mapTd unit step raw with
+    | .months m => pure [.str "months", .int m]
+    | .seconds n d => pure [.str "seconds", .int n, .int d, .int Gen.DisplayTd.dayFloor, .int Gen.DisplayTd.dayMod]
+    | .keyError => pure [.str "err", .str "KeyError"]
+    | .zeroDivision => pure [.str "err", .str "ZeroDivisionError"]
+  | "tdunits", [] => pure [.list (DisplayTd.numpyUnits.map .str)]
   | "pyfacts", [] =>
     -- the tables of Model/PyKinds.lean, for comparison with the interpreter
     pure [ .list (kindNames.map fun (kn, k) => .list [.str kn,
